@@ -345,6 +345,17 @@ CHECKS = {
         design_ref="DESIGN.md 5 C31",
         note=NOTE_COMMON + " Statistical independence is operationalised as 'no bit-identical members' plus first/second moments; the chunk-dependence clauses for a shared block seed are a recorded known finding.",
     ),
+    "C05": dict(
+        text=("TLC enumerates the build space of Norm.tla (4 grids: even/odd square and two rectangular x 4 cutoff classes up to beyond "
+              "the antialias aperture x soft/hard x 12 aberration sets x tilt x 5 position classes incl. off-grid, outside the cell "
+              "and a grid scan x lazy/eager: 7680 probe builds, 32 plane-wave builds); all of them (thorough) or a seeded sample of "
+              "400 + all plane waves (quick) are built with the real Probe / PlaneWave and NormTrace.tla bounds, for every member of "
+              "every built ensemble, sum |FFT psi|^2 - computed by numpy from the returned array - to 1 +- 3e-5, and the modulus "
+              "of un-normalised plane waves to 1 at every pixel."),
+        technique="TLA+ scenario enumeration and bound predicates (TLC) over fixed-point observations of real builds; TLC trace validation",
+        design_ref="DESIGN.md 5 C05",
+        note=NOTE_COMMON + " The numeric kernel is abTEM's; TLC contributes the enumeration, coverage and the bound verdicts.",
+    ),
 }
 
 NOT_APPLICABLE = {
